@@ -474,6 +474,14 @@ def install(eng):
         return b_not(eng.exec_fn(f, args, (ctx.frame.depth + 1) if ctx.frame else 0, subst))
     m(r'^<.* as (std::cmp::|core::cmp::)?PartialEq>::ne$', m_default_ne, fallback=True)
 
+    def m_box_deref(eng, args, ctx):
+        b = args[0]
+        inner = b.cell.get(eng) if isinstance(b, Ref) else b
+        if isinstance(inner, Ref):
+            return inner
+        return b
+    m(r'^<(bumpalo::boxed::|std::boxed::|alloc::boxed::)?Box as (std::ops::|core::ops::)?Deref(Mut)?>::deref(_mut)?$', m_box_deref)
+
     # identity conversions
     m(r'^<.* as (std::convert::|core::convert::)?From>::from$', lambda e, a, c: a[0], fallback=True)
     m(r'^<.* as (std::convert::|core::convert::)?Into>::into$', lambda e, a, c: a[0], fallback=True)
